@@ -7,16 +7,16 @@ set -u
 SRC="$1/mutants/$2"; ID="$3"; PROP="$4"; NEEDS="$5"
 WT=/tmp/adopt.$$
 git -C /repo worktree add --detach "$WT" HEAD >/dev/null 2>&1 || exit 2
-trap 'git -C /repo worktree remove --force "$WT" >/dev/null 2>&1' EXIT
+trap 'git -C /repo worktree remove --force "$WT" >/dev/null 2>&1; rm -f /tmp/adopt-orig.$$.log /tmp/adopt-mut.$$.log' EXIT
 cd "$WT" || exit 2
 build() { cmake -G Ninja -B build -DCMAKE_BUILD_TYPE=RelWithDebInfo -DUSE_MPI=OFF >/dev/null 2>&1 && cmake --build build -j16 >/dev/null 2>&1; }
 build || { echo "ORIG BUILD FAILED"; exit 2; }
 export OVNI_CONFIG_DIR="$WT/cfg"
-bash "$SRC/run.sh" "$WT" >/tmp/adopt-orig.log 2>&1; o=$?
+bash "$SRC/run.sh" "$WT" >/tmp/adopt-orig.$$.log 2>&1; o=$?
 git apply "$SRC/patch.diff" || { echo "PATCH DOES NOT APPLY"; exit 2; }
 build || { echo "MUTANT BUILD FAILED"; exit 2; }
 t=$(ctest --test-dir build -j8 --timeout 900 2>&1 | grep "tests passed")
-bash "$SRC/run.sh" "$WT" >/tmp/adopt-mut.log 2>&1; m=$?
+bash "$SRC/run.sh" "$WT" >/tmp/adopt-mut.$$.log 2>&1; m=$?
 echo "demo on original: exit $o ; demo on mutant: exit $m ; tests: $t"
 if [ "$o" = 0 ] && [ "$m" != 0 ] && echo "$t" | grep -q "100% tests passed"; then
 	D=/verif/seeded/$ID; mkdir -p "$D"
@@ -31,5 +31,5 @@ json.dump({"property": prop, "breaks": open(d + "/README.md").read().split("\n")
 PY
 	echo "ADOPTED $ID"
 else
-	echo "NOT CONFIRMED"; tail -5 /tmp/adopt-orig.log; tail -5 /tmp/adopt-mut.log
+	echo "NOT CONFIRMED"; tail -5 /tmp/adopt-orig.$$.log; tail -5 /tmp/adopt-mut.$$.log
 fi
